@@ -30,7 +30,10 @@ CLAIMED = {
   technique="Lean 4 proof (induction over digits / two-state list machines) + exhaustive model/implementation correspondence",
   ref="DESIGN.md §5 C14"),
  "C15": dict(
-  text="Lean 4 theorems (Props/C15.lean) over the model of OggPage.from_packets/to_packets/write/size: for EVERY packet list, sequence start, "
+  text="Props/C15_OggInject.lean: _from_packets_try_preserve, OggPage.replace and renumber themselves - try_preserve_roundtrip (ANY new packet list reassembles "
+       "exactly and is numbered from the old first page), try_preserve_same_sizes / _other_sizes, replace_writes (ANY caller numbering, fewer / equal / more pages), "
+       "replace_keeps_other_streams, replace_numbers_gapless, replace_first_last_flags, replace_pages_parse, replace_packets(_complete), renumber_renumbers; tied byte "
+       "for byte by ogginject_tie.run_c15. Lean 4 theorems (Props/C15.lean) over the model of OggPage.from_packets/to_packets/write/size: for EVERY packet list, sequence start, "
        "255 <= default_size, wiggle room (and for every page-filling policy) reassembly of the produced pages gives the packets back; to_packets' "
        "own serial/sequence/continuation checks never fire on them (strict and non-strict); sequence numbers are consecutive, continuation flags "
        "consistent; with the code's policy and default_size <= 65024 every page needs <= 255 lacing values; size = length of the rendered page. "
@@ -85,7 +88,14 @@ CLAIMED = {
   technique="Lean 4 proof (codec round trips against strict spec decoders) + byte-level model/implementation correspondence + independent decoders on the real output",
   ref="DESIGN.md §5 C01"),
  "C04": dict(
-  text="Partial. Lean 4 theorems (Props/C04.lean): the modelled decoders are TOTAL and their only failure is the format error - "
+  text="Closure theorems on the container models, for EVERY byte string with no well-formedness hypothesis (Props/C04_<Part>.lean; DESIGN.md 9.13): load / save / delete of the "
+       "model end in ok or MutagenError, never another class and never out of fuel - id3_header_clean, id3_save_clean, id3_delete_clean; ape_locate_clean, "
+       "ape_save_clean, ape_delete_clean; iff_load_clean, iff_walk_finishes, iff_save_clean, iff_delete_clean; dsf_load_clean, dsf_save_clean, dsf_delete_clean; "
+       "asf_load_clean, asf_load_never_diverges, asf_delete_clean, asf_resave_clean, asf_save_classes; ogg_load_clean, ogg_load_opus_clean, ogg_save_classes, "
+       "ogg_delete_classes (+ *_clean_partial under NumberedRun); mp4_parse_clean, mp4_parse_finishes, mp4_load_clean, mp4_save_clean, mp4_delete_clean; and "
+       "<fmt>_info_total for the WavPack / Monkey's Audio / OptimFROG / TrueAudio / TAK stream-info parsers (Props/C05_<Fmt>.lean). The stuck goals of these proofs "
+       "were thirteen real escapes, each repaired as a fix: commit and kept as harness/corpus/c04 inputs. Remaining hypotheses are stated per theorem (v2_version in {3,4}; "
+       "APE files of at least 32 bytes; the donor-only ValueError of to_packets). Partial beyond the models. Lean 4 theorems (Props/C04.lean): the modelled decoders are TOTAL and their only failure is the format error - "
        "mpeg_decode_total (every 32-bit header: a decoded header or HeaderNotFound, indices always inside the generated tables), "
        "streaminfo_load_total, unsynch_decode_total, bitpadded_parse_total, flac_walk_total, ogg_parse_total (any byte string: a page and "
        "the rest, end of stream, or the Ogg error; lacing sums stay inside the data), readBits_lt/readFields_bounds (bit reader never reads "
@@ -100,7 +110,11 @@ CLAIMED = {
   technique="Lean 4 proof (totality of the modelled decoders, generated entry-point table) + mutation search over all openers on the real code",
   ref="DESIGN.md §5 C04"),
  "C05": dict(
-  text="Lean 4 theorems (Props/C05.lean): mutagen's MPEG bitrate/sample-rate tables and the WavPack/Musepack/AAC/AC-3 rate tables (regenerated from "
+  text="Stream-info parsers modelled in Lean with specification-side builders (Model/Info, Spec/Info, Props/C05_<Fmt>.lean): for ALL values of the header fields the "
+       "specification allows, parsing the built header yields exactly the encoded values - wavpack_info_decodes_partial, ape_info_decodes_partial, "
+       "apeold_info_decodes_partial, ofr_info_decodes (+ ofr_encoder_string for all 65536 ids), tta_info_decodes, tak_bitreader_fields, tak_info_decodes; the "
+       "hypotheses of the _partial ones exclude exactly the open findings, which are decide-witnesses in the same files; tied by harness/info_tie_a.py. "
+       "Lean 4 theorems (Props/C05.lean): mutagen's MPEG bitrate/sample-rate tables and the WavPack/Musepack/AAC/AC-3 rate tables (regenerated from "
        "source) equal the published tables; mpeg_header_decodes - for EVERY 32-bit MPEG audio header (all field combinations incl. reserved bits) "
        "the model decoder yields the ISO version/layer/bitrate/rate/channels/padding and the ISO frame length, and rejects exactly the ISO-invalid "
        "ones (symbolic bit-packing lemma + kernel-decided 16384-row product); streaminfo_decode_build - FLAC STREAMINFO decodes to its nine fields "
